@@ -549,6 +549,10 @@ class ViewParameter(AbstractParameter, ParameterListener):
         self.listeners = []
         self.parameter.add_parameter_listener(self)
 
+    def parameters(self) -> list[AbstractParameter]:
+        # the parameters this view reads from (what a checkpoint has to hold)
+        return self.parameter.parameters()
+
     def __str__(self):
         return f"{self._id}"
 
